@@ -78,12 +78,35 @@ type vTCUDPConn struct {
 	inbox  chan []byte
 	closed chan struct{}
 	done   bool
+	// shape of the reply (0 = the header-only truncation notice used by SameServer); see VerifH_C16_ReplyShapes
+	shape int
+	noTC  bool
 }
 
 func (c *vTCUDPConn) Write(p []byte) (int, error) {
 	r := make([]byte, 12)
 	r[0], r[1] = p[0], p[1]
 	r[2] = 0x82 // QR, TC
+	if c.noTC {
+		r[2] = 0x80
+	}
+	r[3] = 0x80 // RA
+	switch c.shape {
+	case 1, 2: // question echoed (2: with the letters' case changed, names compare case-insensitively)
+		r[5] = 1
+		qs := append([]byte(nil), p[12:]...)
+		if c.shape == 2 {
+			for i := range qs {
+				if qs[i] >= 'a' && qs[i] <= 'z' {
+					qs[i] -= 0x20
+				}
+			}
+		}
+		r = append(r, qs...)
+	case 3: // no question, but an OPT record in the additional section (a server that truncates everything else)
+		r[11] = 1
+		r = append(r, 0, 0, 41, 0x04, 0xd0, 0, 0, 0, 0, 0, 0)
+	}
 	c.inbox <- r
 	return len(p), nil
 }
@@ -158,3 +181,49 @@ func VerifH_C16_SameServer() {
 	verifrt.Assert(dials[0].addr == want, "UDP goes to the configured server (dial_addr override honoured)")
 	verifrt.Assert(dials[1].addr == dials[0].addr, "the TCP retry goes to the same server as the UDP query")
 }
+
+
+// VerifH_C16_ReplyShapes: "whenever the UDP reply has the TC flag set" — whatever else that reply looks like. A real
+// query (one question, RD) goes through the upstream NewUpstream builds; the UDP server answers under the query's ID
+// with TC set or clear and with one of the shapes servers and middleboxes produce: a bare 12-octet header, the
+// question echoed, the question echoed with different letter case, no question but an OPT record. TC ⇒ exactly one
+// TCP attempt to the same server whose outcome is returned; no TC ⇒ the reply is returned as received, no TCP.
+func VerifH_C16_ReplyShapes() {
+	verifrt.Unwind(400)
+	verifrt.SchedBound(0)
+	verifrt.CtxNoExpiry = true
+	var dials []vDialRec
+	shape := verifrt.Choose("shape", 4)
+	noTC := verifrt.Bool("no-tc")
+	verifrt.Redirect("(*net.Dialer).DialContext", func(d *net.Dialer, ctx context.Context, network, address string) (net.Conn, error) {
+		dials = append(dials, vDialRec{network, address})
+		if network == "udp" {
+			return &vTCUDPConn{inbox: make(chan []byte, 4), closed: make(chan struct{}), shape: shape, noTC: noTC}, nil
+		}
+		return nil, errVLeg
+	})
+	u, err := NewUpstream("udp://192.0.2.7", Opt{})
+	verifrt.Assert(err == nil && u != nil, "supported address form is accepted")
+	l0 := verifrt.Byte("l0")
+	verifrt.Assume(l0 >= 'a' && l0 <= 'z')
+	q := []byte{0x12, 0x34, 0x01, 0x00, 0, 1, 0, 0, 0, 0, 0, 0, 2, l0, 'b', 0, 0, 1, 0, 1}
+	r, err := u.ExchangeContext(context.Background(), q)
+	verifrt.Quiesce()
+	verifrt.Reach("exchanged")
+	if noTC {
+		verifrt.Reach("complete")
+		verifrt.Assert(err == nil && r != nil, "a reply without TC is returned as received")
+		verifrt.Assert(r.Header.ID == 0x1234 && !r.Header.Truncated && r.Header.RecursionAvailable, "ID restored, flags as received")
+		verifrt.Assert(len(dials) == 1 && dials[0].network == "udp", "and causes no TCP attempt")
+		return
+	}
+	verifrt.Reach("truncated")
+	verifrt.Assert(r == nil && err != nil, "the truncated UDP reply is never returned; the (failing) TCP leg is the outcome")
+	verifrt.Assert(len(dials) == 2 && dials[0].network == "udp" && dials[1].network == "tcp", "one UDP exchange, then exactly one TCP attempt")
+	verifrt.Assert(dials[1].addr == dials[0].addr && dials[0].addr == "192.0.2.7:53", "to the same server")
+}
+
+// VerifH_C17_FallbackLegAddress: the TCP leg of a plain (udp) upstream is a connection of that upstream too: it is
+// dialled to exactly the host and port (or dial_addr override) the UDP leg uses — the scenario of C16_SameServer,
+// registered under the addressing property as well (5 host forms x 5 dial_addr forms x udp:// / scheme-less).
+func VerifH_C17_FallbackLegAddress() { VerifH_C16_SameServer() }
